@@ -9,7 +9,7 @@ from harness import tlc
 from . import gen_client as GC
 
 INVS = ["ContractHolds", "ShutdownIsFinal", "HeartbeatWhileReady"]
-BASE = dict(PROTO='"at4"', MaxTask=12, MaxEnv=10, MaxFrames=7, H=2, Notifies="TRUE", F_WATCHDOG="TRUE", F_RECHECK="TRUE", Record="FALSE")
+BASE = dict(PROTO='"at4"', MaxTask=12, MaxEnv=10, MaxFrames=7, H=2, Notifies="TRUE", F_WATCHDOG="TRUE", F_RECHECK="TRUE", Cmds="FALSE", PostInit="FALSE", Record="FALSE")
 
 
 def cfg(over=None, invs=INVS, emit=False):
@@ -63,7 +63,10 @@ def to_harness(l2, proto, seed=0):
         if k == "step":
             b.op(op="step", k=o["k"])
         elif k == "call":
-            b.call("airtouch", o["method"])
+            if "target" in o:       # a public control call: arguments in script form
+                b.call(o["target"], o["method"], list(o.get("args", [])))
+            else:
+                b.call("airtouch", o["method"])
         elif k == "conn_up":
             b.op(op="resolve", how="ok")
         elif k == "conn_down":
@@ -71,7 +74,7 @@ def to_harness(l2, proto, seed=0):
         elif k == "deliver":
             b.op(op="feed", b=o["b"], tag=o["kind"])
         elif k == "advance":
-            b.op(op="advance", by=o["by"])
+            b.op(op="advance", by=o["by"], hold=True)     # the model's clock stops AT a due timer
         elif k == "quiesce":
             b.op(op="quiesce")
     b.op(op="quiesce")
